@@ -249,6 +249,9 @@ func cmdCheck(args []string) {
 			if cls, ok := propClasses[*prop]; ok {
 				cmd.Env = append(cmd.Env, "GOVC_CLASSES="+strings.Join(cls, ","))
 			}
+			if *tier == "thorough" {
+				cmd.Env = append(cmd.Env, "GOVC_CROSSCHECK=1")
+			}
 			err := cmd.Run()
 			var rs []*FnResult
 			if data, e2 := os.ReadFile(out); e2 == nil {
@@ -345,6 +348,7 @@ func cmdCheck(args []string) {
 	var errors []string
 	perClass := map[string]int{}
 	timeBy := map[string]float64{}
+	var cross [3]int
 	paths, checks := 0, 0
 	inlined := map[string]bool{}
 	usedExt := map[string]bool{}
@@ -377,6 +381,9 @@ func cmdCheck(args []string) {
 		}
 		for k, v := range r.TimeBy {
 			timeBy[k] += v
+		}
+		for i := range cross {
+			cross[i] += r.Cross[i]
 		}
 		paths += r.Paths
 		checks += r.Checks
@@ -566,6 +573,7 @@ func cmdCheck(args []string) {
 				"solver_time_s":            timeBy,
 				"path_instances_discharged_by_backend": byBackend,
 				"obligations_discharged_by_second_run": retried,
+				"second_solver_crosscheck": map[string]interface{}{"tier": "thorough only", "solver": "z3 4.8.12 on the stand-alone script of instances proved by z3 5.1.0 (first 400 per function run)", "agree": cross[0], "disagree": cross[1], "undecided_or_timeout": cross[2]},
 				"solver_checks":            checks,
 				"paths":                    paths,
 				"vacuity":                  vac,
